@@ -200,33 +200,4 @@ def run(ctx):
         ctx.oblige("C02|filtered-elem", good, "a known algorithm is no longer re-emitted as {alg: <same alg>, type: \"public-key\"}", cfg=cfg)
         # framing
         c17.check(ctx, F, cfg, P="C02")
-        m, problems = R.build(F)
-        if m is not None and m.self_match is not None:
-            seen = set()
-            for a in m.self_match["arms"]:
-                pats = a["pat"]["pats"] if a["pat"].get("k") == "or" else [a["pat"]]
-                body = H.strip_block(a["body"])
-                for p in pats:
-                    v = (H.pat_ctor(p) or "?").split("::")[-1]
-                    seen.add(v)
-                    want = spec["response_variants"].get(v, "?")
-                    key = "C02|frame|payload|" + v
-                    if want == "?":
-                        ctx.note("Response::%s is not in the specification table: not judged" % v)
-                        continue
-                    if want is None:
-                        # Ok(<empty slice>)
-                        good = body.get("k") == "call" and body.get("ctor") == R.OK
-                        if good:
-                            x = H.strip(body["args"][0])
-                            if x.get("k") == "mcall" and x.get("callee") in ("core::array::<impl [T; N]>::as_slice", "core::slice::<impl [T]>::as_ref"):
-                                x = H.strip(x["recv"])
-                            good = x.get("k") == "array" and len(x["elems"]) == 0
-                        ctx.oblige(key, good, "parameter-less response %s no longer has an empty body" % v, cfg=cfg, where=a["sp"])
-                    else:
-                        binds = H.pat_bindings(p)
-                        good = body.get("callee") in R.CBOR_SER and len(binds) == 1 and H.local_id(H.call_args(body)[0]) == binds[0][1] and H.local_id(H.call_args(body)[1]) == m.data_id
-                        ty = (body.get("targs") or [""])[0]
-                        ctx.oblige(key, good and W.erase_lt(ty) == want, "response %s is encoded from %s, expected its own payload of type %s" % (v, ty, want), cfg=cfg, where=a["sp"])
-            for v in spec["response_variants"]:
-                ctx.oblige("C02|frame|variant|" + v, v in seen, "Response::%s has no arm in Response::serialize" % v, cfg=cfg, nontrivial=False)
+        c17.payload(ctx, F, cfg, spec, P="C02")
